@@ -301,3 +301,62 @@ func HarnessC12Numbers() {
 	fo, ok := object.NativeToObject(f).(*object.Float)
 	vAssert(ok && (fo.Value == f || (fo.Value != fo.Value && f != f)), "float-keeps-its-value")
 }
+
+
+type c12RowA struct {
+	Title string
+	N     int
+}
+
+type c12RowB struct {
+	N     int
+	Title string
+	Extra bool
+}
+
+func c12LocalRow1(t string) any {
+	type row struct {
+		Title string
+		N     int
+	}
+	return row{t, 3}
+}
+
+func c12LocalRow2(t string) any {
+	type row struct {
+		N     int
+		Title string
+	}
+	return row{7, t}
+}
+
+// HarnessC12Mixed: values of different struct types side by side (in one slice, in one map, in two calls): each is
+// visible through its own field names, whatever type came first - also when two local types print the same name.
+func HarnessC12Mixed() {
+	s := symBytesAny("s", 1)
+	var data map[string]any
+	var src, want string
+	switch vChoice("shape", 5) {
+	case 0:
+		data = map[string]any{"v": []any{c12RowA{s, 1}, c12RowB{2, "b", true}}}
+		src, want = "{{ v[0].title }}{{ v[0].n }}|{{ v[1].title }}{{ v[1].n }}{{ v[1].extra }}", s+"1|b21"
+	case 1:
+		data = map[string]any{"v": []any{c12RowB{2, "b", true}, c12RowA{s, 1}, struct{}{}, c12RowA{"z", 9}}}
+		src, want = "{{ v[1].title }}{{ v[1].n }}|{{ v[3].title }}{{ v[0].extra }}", s+"1|z1"
+	case 2:
+		data = map[string]any{"m": map[string]any{"a": c12RowA{s, 1}, "b": c12RowB{2, "b", false}}}
+		src, want = "{{ m.a.title }}|{{ m.b.title }}{{ m.b.n }}", s+"|b2"
+	case 3: // two local types with the same printed name, in one render
+		data = map[string]any{"x": c12LocalRow1(s), "y": c12LocalRow2("q")}
+		src, want = "{{ x.title }}{{ x.n }}|{{ y.title }}{{ y.n }}", s+"3|q7"
+	default: // ... and in two renders of one process
+		first, ferr := EvaluateString("{{ y.title }}{{ y.n }}", map[string]any{"y": c12LocalRow2("q")})
+		vAssert(ferr == nil && first == "q7", "reachable-path-renders")
+		data = map[string]any{"x": c12LocalRow1(s)}
+		src, want = "{{ x.title }}{{ x.n }}", s+"3"
+	}
+	out, err := EvaluateString(src, data)
+	vCover("rendered")
+	vAssert(err == nil, "reachable-path-renders")
+	vAssert(vEqStr(out, want), "value-prints-as-the-equal-literal")
+}
